@@ -34,6 +34,11 @@ func ParseTime(value string) (Time, error) {
 	value = strings.TrimPrefix(value, "@T")
 	for _, l := range timeLayouts {
 		if t, err = time.Parse(l, value); err == nil {
+			if l == secondLayout && strings.Contains(value, ".") {
+				// time.Parse accepts a fraction that the layout does not mention:
+				// keep it visible, at the millisecond precision Time supports
+				return Time{t.Truncate(time.Millisecond), millisecondLayout}, nil
+			}
 			return Time{t, layout(l)}, nil
 		}
 	}
